@@ -126,9 +126,29 @@ def large_carrier_case(draw):
 
 
 @st.composite
+def wide_carrier_case(draw):
+    """Integer coefficients and a scalar integer argument whose square or cube leaves 32 bits but not 62: the
+    carrier differential then tries every numpy integer type that holds the value (uint32, int32, int64, ...)."""
+    names = draw(gen.names_st(max_size=2))
+    desc = draw(gen.poly_desc(names=names, kind="i", max_terms=3, max_exp=2, max_ndim=1))
+    size = gen.size_of(tuple(desc["shape"]))
+    row = [draw(st.integers(2, 3))] + [0] * (len(names) - 1)
+    if all(list(t[0]) != row for t in desc["terms"]):
+        desc["terms"] = desc["terms"] + [[row, [draw(st.sampled_from([1, -1, 2]))] * size]]
+    desc["terms"] = [t for t in desc["terms"] if t[0][0] <= 3]
+    spec = [{"how": "kw", "val": {"t": "pyint", "v": draw(st.sampled_from([70000, 65537, 100000, 300000, 2 ** 16, 40000]))}}]
+    for _ in names[1:]:
+        spec.append({"how": "kw", "val": {"t": "pyint", "v": draw(st.integers(-2, 2))}})
+    return {"poly": desc, "spec": spec, "err": None, "stage": 0}
+
+
+@st.composite
 def case_st(draw):
-    if draw(st.integers(0, 9)) == 0:
+    pick = draw(st.integers(0, 11))
+    if pick == 0:
         return draw(large_carrier_case())
+    if pick == 1:
+        return draw(wide_carrier_case())
     names = draw(gen.names_st(max_size=3))
     desc = draw(gen.poly_desc(names=names, max_terms=5, max_exp=3, max_ndim=3))
     if draw(st.integers(0, 4)) == 0 and desc["terms"]:
